@@ -240,6 +240,21 @@ def catalogue(fam, p, rng):
     # --- remaining length too small for the mandatory fields (declared length shrunk, bytes kept)
     if kind in ('subscribe', 'unsubscribe', 'suback') or (kind == 'publish' and p[3] > 0):
         res.append(('remaining-length-too-small', canon[:1] + b'\x01' + canon[hl:], {'poll': 'err InvalidRemainingLength'}))
+    # --- remaining length 0 (also spelled 80 00) on a type that must have a body; alone and with a packet behind it
+    if kind not in ('pingreq', 'pingresp', 'disconnect', 'auth'):
+        for sp in (b'\x00', b'\x80\x00'):
+            for tail_ in (b'', b'\xc0\x00'):
+                res.append(('remaining-length-zero', canon[:1] + sp + tail_, {'poll': 'err InvalidRemainingLength'}))
+    # --- remaining length 1 on the packets whose body starts with a two-byte field
+    if kind in ('connack', 'puback', 'pubrec', 'pubrel', 'pubcomp', 'unsuback', 'suback', 'subscribe', 'unsubscribe'):
+        res.append(('remaining-length-one', canon[:1] + b'\x01' + canon[hl:hl + 1], {'poll': 'err InvalidRemainingLength'}))
+    # --- the declared remaining length ends inside the last subscription entry while the stream goes on with
+    #     bytes a decoder could mistake for the rest of the entry (a legal options byte / filter byte, then more)
+    if kind in ('subscribe', 'unsubscribe') and len(pk.vbi(len(canon) - hl - 1)) == hl - 1 and \
+            (kind == 'subscribe' or canon[-1:].isalnum()):
+        cut = canon[:1] + pk.vbi(len(canon) - hl - 1) + canon[hl:-1]
+        follow = (b'\x20\x03\x00\x00\x00' if v5 else b'\x01\x00\x00') if kind == 'subscribe' else b'\x61\xc0\x00'
+        res.append(('entry-overruns-frame', cut + follow, {'all': 'err InvalidRemainingLength'}))
     # --- remaining length + 1 with one extra byte (fixed-structure packets)
     if (not v5 and kind in ('connect', 'connack', 'puback', 'pubrec', 'pubrel', 'pubcomp', 'unsuback')) or \
             (v5 and kind in ('connect', 'connack')):
